@@ -601,7 +601,7 @@ class LinComb:
         if bits is None:
             bits = bitlength
 
-        if is_guard() and self.value.bit_length() <= bits:
+        if is_guard() and (self.value if self.value >= 0 else -self.value - 1).bit_length() <= bits:
             ret = PrivValBool(1 if self.value >= 0 else 0)
             abs = self.value if self.value >= 0 else -self.value - 1
 
